@@ -43,3 +43,79 @@ CHECKS["C05"] = dict(
     ],
     trusted=["Tie/Tie.v ties expr/aggregates.go, expr/calcs.go, expr/conds.go kernels (regenerated into Gen/Facts.v) to the model"],
 )
+
+
+# ---------------------------------------------------------------------------
+# DB-level checks: real zenodb.DB on a scratch directory vs the specification model (Model/DB.v)
+# ---------------------------------------------------------------------------
+
+def _strform(x):
+    """expression string as zenodb prints it, as far as collisions are concerned (AVG drops its weight)"""
+    k = x["k"]
+    sub = [_strform(s) for s in x.get("sub", [])]
+    if k == "avg":
+        return "AVG(%s)" % sub[0]
+    return "%s:%s:%s:%s:%s(%s)" % (k, x.get("n", ""), x.get("z", 0), x.get("lo", 0), x.get("hi", 0), ",".join(sub))
+
+
+def _avg_leaves(x, out):
+    if x["k"] == "avg":
+        out.append((_strform(x["sub"][0]), _strform(x["sub"][1])))
+    for s in x.get("sub", []):
+        _avg_leaves(s, out)
+
+
+def db_finding_key(case):
+    t = case.get("table", {})
+    strs = [_strform(f["e"]) for f in t.get("fields", [])]
+    leaves = []
+    for f in t.get("fields", []):
+        _avg_leaves(f["e"], leaves)
+    weights = {}
+    collide = len(set(strs)) != len(strs)
+    for v, w in leaves:
+        if weights.setdefault(v, w) != w:
+            collide = True
+    if collide:
+        return "duplicate-field-definition"
+    return None
+
+
+_DB_ASSUME = [
+    "virtual time; MinFlushLatency 1h so that only scripted FlushAll flushes happen; IterationCoalesceInterval 1ms; queries run serially",
+    "exact quiescence through the verif hooks (WAL read to the end, every read entry processed, every submitted insert applied)",
+    "goexpr evaluation of WHERE / IF conditions is an oracle: the harness evaluates the real goexpr (compiled by the real sql.Parse) on each point and hands the booleans to the model",
+    "values are small integers so float64 arithmetic is exact; DIV never feeds a comparison; +-Inf counts as equal to any model value beyond 1e300",
+    "every point lies inside the retention window at query time (retention is C14's subject)",
+    "table fields have pairwise different expression strings (see known finding duplicate-field-definition); no constant operands in binary field expressions (D14); no aggregate over a bare constant (D17)",
+    "the SQL the harness prints for each field is parsed back with the real parser and must print the same expression as the AST given to the model",
+]
+_DB_TRUSTED = ["verif hooks in /repo (build tag verif): quiescence counters, VerifQuiescent, VerifNow/VerifAdvanceClock"]
+
+
+def _db(mode, quick, thorough, what):
+    return dict(
+        stages=[dict(sub="dbq", mode=mode, quick=quick, thorough=thorough, shrink=["points", "queries", "flush_after", "reopen_after"], parallel=16, shards=16)],
+        finding_key=db_finding_key, assumptions=_DB_ASSUME, trusted=_DB_TRUSTED, what_fails=what)
+
+
+CHECKS["C01"] = dict(_db("c01", 64, 3200, "SELECT * FROM t (memstore included) does not return exactly one row per (group key, period) with the declared aggregates over exactly the accepted points"),
+    rule=("random table schemas (1-4 fields from the aggregate grammar incl. IF/BOUNDED/AVG/WAVG and arithmetic/boolean combinations, "
+          "optional WHERE, GROUP BY * or dim subsets incl. an absent dim, resolutions 1s/2s/7s/1m) x 5-34 points (mixed-type/missing/nil "
+          "dims, missing/extra/non-numeric values, timestamps on exact period boundaries and +-1ns, duplicates, out of order) x random "
+          "flush/reopen schedules; `SELECT * FROM t` on the real DB vs spec_rows of Model/DB.v. non-trivial: >= 3 points; distinct = distinct case JSON"))
+CHECKS["C06"] = dict(_db("c06", 64, 3200, "a grouped query (fewer dims / longer period / derived fields) differs from the aggregate of the raw points per output row"),
+    rule=("as C01, plus 4 queries per history: SELECT * / named subsets / derived fields over table fields, GROUP BY none, *, _, dim "
+          "subsets incl. an absent dim, period = 1..8 x resolution, a non-multiple (planning error expected) or larger than the window; "
+          "real DB vs spec_rows. non-trivial: >= 3 points; distinct = distinct case JSON"))
+CHECKS["C07"] = dict(_db("c07", 64, 3200, "a query with ASOF/UNTIL returns a period outside (asOf, until] or misses/changes one inside it"),
+    rule=("as C06 with ASOF (always) and UNTIL (2/3) bounds: aligned, +1ns, unaligned, before/inside/after the data, occasionally "
+          "inverted; 5 queries per history; real DB vs spec_rows incl. planning errors. non-trivial: >= 3 points"))
+CHECKS["C08"] = dict(_db("c08", 64, 3200, "a query with WHERE over stored dims does not equal the same query over only the matching points"),
+    rule=("as C06 with a WHERE predicate over the dims of the stored key (=, <>, <, >, <=, >=, IN, IS NULL, AND/OR/NOT), evaluated by "
+          "the real goexpr on each point's stored key as an oracle column; 4 queries per history. non-trivial: >= 3 points"))
+CHECKS["C03"] = dict(_db("c03", 64, 3200, "a memstore-inclusive query depends on the flush/restart schedule, or a disk-only query after a flush differs from the memstore-inclusive one"),
+    rule=("as C01 with schedules none / every k-th insert / random / dense (>10 flushes, so the every-10th re-encoding flush runs) / "
+          "flushes with clean close+reopen; queries: SELECT * and a named field subset with the memstore, and after a final flush the same two "
+          "disk-only; every run is compared with the schedule-independent reference (so all schedules agree with each other). "
+          "non-trivial: >= 3 points"))
